@@ -167,16 +167,17 @@ func ruleC13(c *Ctx, r *Report) {
 	r.OK("C13-R2", "HashName:one-output-per-component", c.InstrPos(join), "joined slice has len(strings.Split(...)) elements")
 	sepS, _ := constString(split.Call.Args[1])
 	r.Check(sepS == "." && sepJ == sepS, "C13-R2", "HashName:separator-agreement", c.InstrPos(split), "split and join both use \".\"", fmt.Sprintf("split separator %q, join separator %q (dotted paths must map component by component)", sepS, sepJ))
-	// trim
-	trimOK := false
+	// the split operand is the parameter (possibly with a leading '$' trimmed from the whole path)
+	fromParam := split.Call.Args[0] == ssa.Value(hn.Params[0])
 	if tc, ok := split.Call.Args[0].(*ssa.Call); ok {
 		k := calleeKey(&tc.Call)
 		cut, _ := constString(tc.Call.Args[1])
 		if (k == "strings.TrimLeft" || k == "strings.TrimPrefix") && cut == "$" && tc.Call.Args[0] == ssa.Value(hn.Params[0]) {
-			trimOK = true
+			fromParam = true
 		}
 	}
-	r.Check(trimOK, "C13-R2", "HashName:trim-dollar", c.InstrPos(split), "components come from the parameter with the leading '$' trimmed", "the leading '$' is not trimmed from the parameter before splitting (\"$a\" and \"a\" must share a pseudonym)")
+	r.Check(fromParam, "C13-R2", "HashName:splits-the-parameter", c.InstrPos(split), "the components are those of the parameter", "the string that is split is not the parameter (at most with its leading '$' trimmed)")
+	perComponentTrim := false
 	// loop
 	var loop *IterLoop
 	for _, l := range iterLoops(hn) {
@@ -257,7 +258,16 @@ func ruleC13(c *Ctx, r *Report) {
 						// hashed bytes = []byte(component)
 						compOK := false
 						if cv, ok := hc.Call.Args[0].(*ssa.Convert); ok {
-							if ld, ok := cv.X.(*ssa.UnOp); ok {
+							x := cv.X
+							// strings.TrimLeft(component, "$"): "a.$b" and "$b" share the pseudonym of b
+							if tc, ok := x.(*ssa.Call); ok {
+								k := calleeKey(&tc.Call)
+								if cut, _ := constString(tc.Call.Args[1]); (k == "strings.TrimLeft" || k == "strings.TrimPrefix") && cut == "$" {
+									perComponentTrim = true
+									x = tc.Call.Args[0]
+								}
+							}
+							if ld, ok := x.(*ssa.UnOp); ok {
 								if ia, ok := ld.X.(*ssa.IndexAddr); ok && ia.X == ssa.Value(split) && ia.Index == loop.Idx {
 									compOK = true
 								}
@@ -277,6 +287,8 @@ func ruleC13(c *Ctx, r *Report) {
 		}
 	}
 	r.Check(dOK, "C13-R2", "HashName:digest", c.InstrPos(sp), detail, detail)
+	r.Check(dOK && perComponentTrim, "C13-R2", "HashName:trim-dollar", c.InstrPos(split), "the leading '$' is trimmed from every component before it is hashed",
+		"the leading '$' is not trimmed from each component: '$cmd' inside 'db.$cmd.aggregate' and the collection '$cmd.aggregate' receive different pseudonyms (\"$a\" and \"a\" must share one wherever the component stands)")
 
 	// ---- R3 single definition: no other hashing in the package
 	r.Floor("C13-R3", 1, "hash call sites")
